@@ -492,6 +492,19 @@ func (env *SpecEnv) walkSel(cur cursor, t types.Type, name string, e *SExpr) (cu
 		}
 	}
 	if !ok {
+		// unexported field of a struct type declared in another package (specs may name them): look it up
+		// with the package of the field itself
+		if stt, isS := derefType(t).Underlying().(*types.Struct); isS {
+			for i := 0; i < stt.NumFields(); i++ {
+				if g := stt.Field(i); g.Name() == name && g.Pkg() != nil {
+					obj, index, _ = types.LookupFieldOrMethod(t, true, g.Pkg(), name)
+					f, ok = obj.(*types.Var)
+					break
+				}
+			}
+		}
+	}
+	if !ok {
 		env.fail("no field %s in %s (%s)", name, t, e)
 	}
 	for i, idx := range index {
@@ -698,6 +711,13 @@ func (env *SpecEnv) trCall(e *SExpr) Val {
 			env.fail("boxptr: unknown type %s", args[1].S)
 		}
 		return Val{T: fmt.Sprintf("(mkI %d %s)", c.eng.typeTag(types.NewPointer(t)), x.T), S: "Iface"}
+	case "addr":
+		// addr(x.f): the reference of the struct-valued (embedded or named) field f — what &x.f is in Go
+		cur, t := env.selCursor(args[0])
+		if !cur.isRef || t == nil || cur.prefix != "" {
+			env.fail("addr: %s is not an addressable named struct field", args[0])
+		}
+		return Val{T: cur.ref, S: "Int", GT: types.NewPointer(t)}
 	case "ptr":
 		// ptr(x, "pkgname.Type"): view the reference x as a *pkgname.Type (for field selection)
 		x := env.tr(args[0])
@@ -875,4 +895,11 @@ func (env *SpecEnv) trCall(e *SExpr) Val {
 	}
 	env.fail("unknown function %q in spec", name)
 	return Val{}
+}
+
+func derefType(t types.Type) types.Type {
+	if p, ok := t.Underlying().(*types.Pointer); ok {
+		return p.Elem()
+	}
+	return t
 }
